@@ -334,7 +334,8 @@ func Main(name string, e Engine) {
 
 	t0 := time.Now()
 	res := &Result{Engine: name, Seed: *seed, Tier: *tier, Cfg: *cfg, Rule: e.Rule(),
-		OpHist: map[string]int{}, OutHist: map[string]int{}, Extra: map[string]any{}}
+		OpHist: map[string]int{}, OutHist: map[string]int{}, Extra: map[string]any{},
+		Samples: []any{}, ImplVsModel: []Mismatch{}, ImplVsSpec: []Mismatch{}}
 	seen := map[string]bool{}
 	rng := NewRand(*seed)
 
@@ -408,6 +409,22 @@ func Main(name string, e Engine) {
 		os.Stdout.Write(buf)
 	}
 }
+
+// QuietRaftLogger is an etcd/raft logger that drops everything below Error.
+type QuietRaftLogger struct{}
+
+func (QuietRaftLogger) Debug(v ...any)                 {}
+func (QuietRaftLogger) Debugf(format string, v ...any) {}
+func (QuietRaftLogger) Info(v ...any)                  {}
+func (QuietRaftLogger) Infof(format string, v ...any)  {}
+func (QuietRaftLogger) Warning(v ...any)               {}
+func (QuietRaftLogger) Warningf(format string, v ...any) {}
+func (QuietRaftLogger) Error(v ...any)                 { fmt.Fprintln(os.Stderr, v...) }
+func (QuietRaftLogger) Errorf(format string, v ...any) { fmt.Fprintf(os.Stderr, format+"\n", v...) }
+func (QuietRaftLogger) Fatal(v ...any)                 { panic(fmt.Sprint(v...)) }
+func (QuietRaftLogger) Fatalf(format string, v ...any) { panic(fmt.Sprintf(format, v...)) }
+func (QuietRaftLogger) Panic(v ...any)                 { panic(fmt.Sprint(v...)) }
+func (QuietRaftLogger) Panicf(format string, v ...any) { panic(fmt.Sprintf(format, v...)) }
 
 // ReadOps reads an ops file: one op per line, '#' comments and blank lines skipped.
 func ReadOps(path string) []string {
